@@ -62,7 +62,7 @@ package client
 //@   before call (*Broker).finish assert finish-answers-of-this-poll: called(Validator) && lastret(Validator, 1) == nil && arg1 == f
 //@   before store send assert notfound-is-requeued-whole: called(Validator) ==> (f.NotFound() ==> arg0[len(arg0)-1] == cached)
 //@   before store send assert failed-is-resent-whole: called(Validator) ==> (!f.NotFound() && f.Failed() ==> arg0[len(arg0)-1] == cached || (typeis(arg0[len(arg0)-1], *recoverFile) && len(as(arg0[len(arg0)-1], *recoverFile).left) == 1 && as(arg0[len(arg0)-1], *recoverFile).left[0].Beg == 0 && as(arg0[len(arg0)-1], *recoverFile).left[0].End == cached.GetSize() && as(arg0[len(arg0)-1], *recoverFile).Cached == cached))
-//@   before store send assert resumed-file-keeps-its-announced-predecessor: called(Validator) && !f.NotFound() && f.Failed() && typeis(arg0[len(arg0)-1], *recoverFile) ==> has(lookup, f.GetName()) && as(arg0[len(arg0)-1], *recoverFile).prev == lookup[f.GetName()].Prev && as(arg0[len(arg0)-1], *recoverFile).Cached == cached
+//@   before store send assert resumed-file-keeps-its-announced-predecessor: called(Validator) && !f.NotFound() && f.Failed() && has(lookup, f.GetName()) ==> typeis(arg0[len(arg0)-1], *recoverFile) && as(arg0[len(arg0)-1], *recoverFile).prev == lookup[f.GetName()].Prev && as(arg0[len(arg0)-1], *recoverFile).Cached == cached
 //@   before call sts.SendLogger.Sent assert sent-logged-once: called(sts.SendLogger.WasSent) && !lastret(sts.SendLogger.WasSent, 0) && (f.Waiting() || f.Received())
 
 // the arithmetic of the Iterate callback of recover is proved on the closure itself (short context):
